@@ -2,6 +2,7 @@ package zygo
 
 import (
 	"fmt"
+	"math"
 	"reflect"
 	"strconv"
 	"strings"
@@ -505,7 +506,12 @@ func (f *SexpFloat) SexpString(ps *PrintState) string {
 	if f.Scientific {
 		return strconv.FormatFloat(f.Val, 'e', -1, SexpFloatSize)
 	}
-	return strconv.FormatFloat(f.Val, 'f', -1, SexpFloatSize)
+	s := strconv.FormatFloat(f.Val, 'f', -1, SexpFloatSize)
+	if math.IsInf(f.Val, 0) || math.IsNaN(f.Val) || strings.Contains(s, ".") {
+		return s
+	}
+	// keep an integral float recognizable as a float: 3.0, not 3
+	return s + ".0"
 }
 
 func (c *SexpChar) SexpString(ps *PrintState) string {
